@@ -467,7 +467,11 @@ def to_docstring(
             if param_type is None and __param is not None:
                 return "{}\n{}".format(_fill(__param), _sep)
             elif __param is None:
-                return __param
+                return (
+                    __param
+                    if param_type is None
+                    else "{}\n{}".format(_fill(param_type), _sep)
+                )
             return "".join(
                 (
                     _fill(__param.replace("\n", "\n{sep}".format(sep=_sep))),
@@ -557,9 +561,12 @@ def to_docstring(
         else "",
         returns=(
             "{returns}\n{sep}".format(
-                returns=param2docstring_param(
-                    next(iter(intermediate_repr["returns"].items())),
-                    emit_default_doc=emit_default_doc,
+                returns=(
+                    param2docstring_param(
+                        next(iter(intermediate_repr["returns"].items())),
+                        emit_default_doc=emit_default_doc,
+                    )
+                    or ""
                 ).rstrip(),
                 sep=sep,
             )
